@@ -12,6 +12,14 @@ git -C /repo worktree add -q --detach "$WT" HEAD || exit 2
 if ! git -C "$WT" apply "$SRC/patch.diff" 2>/dev/null && ! git -C "$WT" apply -3 "$SRC/patch.diff"; then echo "patch does not apply"; git -C /repo worktree remove --force "$WT"; exit 2; fi
 (cd "$WT" && PYTHONPATH="$WT/src" /venv/bin/python -m pytest -q -p no:cacheprovider 2>&1 | tail -1) > /tmp/ben_suite_$NAME.txt
 OUT="/tmp/benout_$NAME"; rm -rf "$OUT"; mkdir -p "$OUT"
+HOLDS=""
+if [ -f "$SRC/holds.py" ]; then
+  # the author's demonstration that the property still holds: must pass on the unchanged and on the changed tree
+  PYTHONPATH=/repo/src timeout 900 /venv/bin/python "$SRC/holds.py" >/dev/null 2>&1; H1=$?
+  PYTHONPATH="$WT/src" timeout 900 /venv/bin/python "$SRC/holds.py" >/dev/null 2>&1; H2=$?
+  HOLDS="unchanged_rc=$H1 changed_rc=$H2"
+  mkdir -p "/verif/benign/$NAME"; [ "$(readlink -f "$SRC")" = "/verif/benign/$NAME" ] || cp "$SRC/holds.py" "/verif/benign/$NAME/"
+fi
 RES=""
 for P in $PID $EXTRA; do
   (cd /verif && VERIF_REPO="$WT" VERIF_OUT="$OUT" ./check "$P" --tier quick) > "$OUT/check_$P.txt" 2>&1; RC=$?
@@ -21,9 +29,9 @@ done
 git -C /repo worktree remove --force "$WT"
 mkdir -p "/verif/benign/$NAME"
 [ "$(readlink -f "$SRC")" = "/verif/benign/$NAME" ] || cp "$SRC/patch.diff" "/verif/benign/$NAME/"
-/venv/bin/python - "$SRC" "$NAME" "$PID" "$RES" "$OUT" <<'PY'
+/venv/bin/python - "$SRC" "$NAME" "$PID" "$RES" "$OUT" "$HOLDS" <<'PY'
 import json, sys, os, glob
-src, name, pid, res, out = sys.argv[1:6]
+src, name, pid, res, out, holds = sys.argv[1:7]
 meta = json.load(open(os.path.join(src, "meta.json")))
 suite = open("/tmp/ben_suite_%s.txt" % name).read().strip()
 viol, trans = [], {}
@@ -38,6 +46,8 @@ for f in glob.glob(os.path.join(out, "evidence", "*.json")):
         trans[os.path.basename(f)[:-5]] = {"status": t.get("status"), "untranslatable": sorted(t.get("untranslatable", {}))}
 meta.update({"property": pid, "suite_with_change": suite, "checks_run": res.split(), "violation_lines": viol,
              "false_alarm": bool(viol), "translator_tie": trans})
+if holds:
+    meta["property_demo"] = holds
 json.dump(meta, open("/verif/benign/%s/meta.json" % name, "w"), indent=1)
 print("BENIGN", name, "FALSE-ALARM" if viol else "quiet", "|", suite, "| translator", trans)
 PY
